@@ -165,6 +165,9 @@ func famC18(g *Gen, o *Out, n int, thorough bool) {
 		}
 		ver := 1 + g.pick(2)
 		carPath := filepath.Join(sb, "x.car")
+		if g.pick(3) == 0 {
+			os.WriteFile(carPath, nil, 0o644) // an output path that exists already, empty (mktemp, touch)
+		}
 		args := []string{"create", fmt.Sprintf("--version=%d", ver), "--file=" + carPath}
 		if noWrap {
 			args = append(args, "--no-wrap")
